@@ -11,6 +11,7 @@ import (
 	"hash/fnv"
 	"sort"
 	"strings"
+	"sync/atomic"
 	"time"
 
 	"github.com/hashicorp/eventlogger"
@@ -107,6 +108,15 @@ func contains(xs []string, x string) bool {
 	return false
 }
 
+// invalidPolicies are spellings that are not one of the two policy values (values are compared exactly: a different
+// case, padding or the empty string is an invalid policy)
+var invalidPolicies = []string{"NoSuchPolicy", "", "denyoverwrite", "DENYOVERWRITE", "allowoverwrite", "DenyOverwrite ", " AllowOverwrite", "Deny", "deny-overwrite"}
+var invalidPick atomic.Int64
+
+func invalidPolicy() eventlogger.RegistrationPolicy {
+	return eventlogger.RegistrationPolicy(invalidPolicies[int(invalidPick.Add(1))%len(invalidPolicies)])
+}
+
 func nodeOpt(pol string) []eventlogger.Option {
 	switch pol {
 	case "allow":
@@ -114,7 +124,7 @@ func nodeOpt(pol string) []eventlogger.Option {
 	case "deny":
 		return []eventlogger.Option{eventlogger.WithNodeRegistrationPolicy(eventlogger.DenyOverwrite)}
 	case "invalid":
-		return []eventlogger.Option{eventlogger.WithNodeRegistrationPolicy(eventlogger.RegistrationPolicy("NoSuchPolicy"))}
+		return []eventlogger.Option{eventlogger.WithNodeRegistrationPolicy(invalidPolicy())}
 	}
 	return nil
 }
@@ -126,7 +136,7 @@ func pipeOpt(pol string) []eventlogger.Option {
 	case "deny":
 		return []eventlogger.Option{eventlogger.WithPipelineRegistrationPolicy(eventlogger.DenyOverwrite)}
 	case "invalid":
-		return []eventlogger.Option{eventlogger.WithPipelineRegistrationPolicy(eventlogger.RegistrationPolicy(""))}
+		return []eventlogger.Option{eventlogger.WithPipelineRegistrationPolicy(invalidPolicy())}
 	}
 	return nil
 }
